@@ -443,7 +443,9 @@ func vfC08RunC(res *vfh.Result, cnt *vfC08Counters, w vfh.Walk, rsaName string, 
 				}
 			}
 			if len(bad) == 0 {
-				panic("vfC08: no invalid signature mutation found")
+				c.mismatch("verify-accepts-any-signature:"+nx.Sig.Kt, "every single-bit mutation of the signature still verifies", false, true)
+				res.Count(1, si+1)
+				return
 			}
 			c.sig = bad[rnd.Intn(len(bad))]
 		case "verify", "verifymut":
